@@ -686,7 +686,7 @@ impl Router {
                         let mut group = None;
 
                         if let Some((grp, filter_path)) = extract_group(&f.path) {
-                            group = Some(grp);
+                            group = Some(shared_group_key(&grp, &filter_path));
                             filter = filter_path;
                         };
 
@@ -754,7 +754,8 @@ impl Router {
                         // Remove the connection from the group of this shared
                         // subscription (if it is one) and discard the group when it
                         // has no client left
-                        if let Some((group_name, _)) = extract_group(filter) {
+                        if let Some((group_name, filter_path)) = extract_group(filter) {
+                            let group_name = shared_group_key(&group_name, &filter_path);
                             if let Some(group) = self.shared_subscriptions.get_mut(&group_name) {
                                 group.remove_client(&client_id);
                                 if group.is_empty() {
@@ -1799,6 +1800,12 @@ fn validate_clientid(client_id: &str) -> Result<(), RouterError> {
     }
 
     Ok(())
+}
+
+/// A shared subscription group is one share name on one topic filter: the same share name used
+/// with another filter reads another log and needs a cursor and a turn of its own
+fn shared_group_key(share_name: &str, filter_path: &str) -> String {
+    format!("{share_name}/{filter_path}")
 }
 
 fn extract_group(filter: &str) -> Option<(String, String)> {
